@@ -68,19 +68,26 @@ void h_range_parameter(void)
 #ifdef H_M_ERROR
 /* ---- noise vectors: vnacal_new_set_m_error (spline kernels by contract) */
 int ghost_spline_calc_calls, ghost_spline_eval_calls;
+static const double *ghost_coeff_y;	/* the value vector the coefficient array was computed for */
+static const void *ghost_coeff_c;
 int _vnacommon_spline_calc(int n, const double *x_vector,
 	const double *y_vector, double (*c_vector)[3])
 {
-    (void)n; (void)x_vector; (void)y_vector; (void)c_vector;
+    (void)n; (void)x_vector;
     ++ghost_spline_calc_calls;
+    ghost_coeff_y = y_vector;
+    ghost_coeff_c = (const void *)c_vector;
     return 0;
 }
 double nondet_double(void);
 double _vnacommon_spline_eval(int n, const double *x_vector,
 	const double *y_vector, const double (*c_vector)[3], double x)
 {
-    (void)n; (void)x_vector; (void)y_vector; (void)c_vector; (void)x;
+    (void)n; (void)x_vector; (void)x;
     ++ghost_spline_eval_calls;
+    /* contract of the pair: eval may only be given coefficients computed for the same values */
+    CHECK(ghost_coeff_c == (const void *)c_vector && ghost_coeff_y == y_vector,
+	    "spline evaluated with the coefficients computed for its own value vector");
 #ifdef VERIF_CBMC
     return nondet_double();
 #else
@@ -96,21 +103,25 @@ void h_range_m_error(void)
     IN(double, pfmax);
     IN(double, nf0);
     IN(double, nf1);
+    IN(double, tr0);
+    IN(double, tr1);
+    IN(bool, with_tr);
     IN(bool, errfn);
-    double fv[2], cfv[2], nfv[2];
+    double fv[2], cfv[2], nfv[2], trv[2];
     vnacal_t *vcp = mk_vcp_min(errfn);
     vnacal_new_t *vnp;
     int rc;
 
     ASSUME(RANGE_PRE(fmin, fmax));
     ASSUME(pfmin == pfmin && pfmax == pfmax && pfmin < pfmax);
-    ASSUME(nf0 > 0.0 && nf1 > 0.0);
+    ASSUME(nf0 > 0.0 && nf1 > 0.0 && tr0 >= 0.0 && tr1 >= 0.0);
     fv[0] = pfmin; fv[1] = pfmax;
     cfv[0] = fmin; cfv[1] = fmax;
     nfv[0] = nf0; nfv[1] = nf1;
+    trv[0] = tr0; trv[1] = tr1;
     vnp = mk_vnp_min(vcp, VNACAL_T8, 2, 2, 2, cfv);
     ghost_err_reset();
-    rc = vnacal_new_set_m_error(vnp, fv, 2, nfv, NULL);
+    rc = vnacal_new_set_m_error(vnp, fv, 2, nfv, with_tr ? trv : NULL);
     REACH("set_m_error returned");
     CHECK(rc == 0 || rc == -1, "set_m_error returns 0 or -1");
     RANGE_POST("noise vector", rc == -1, fmin, fmax, pfmin, pfmax);
